@@ -26,7 +26,7 @@ BOUND = {"quick": "(a) all 2^6 orientation patterns + orders/shifts (deviation b
 ASSUMPTIONS = ["the magnitude of a row's right-hand side is compared with the library's own public total turning (its accuracy is sub-check (b))",
                "the solution clause is judged where the internal interfaces link all cells that have one into a single group",
                "tolerances: 1e-9 relative (solution vs reference), 3% (estimator), Pearson 0.9 (physics)"]
-REQUIRED_TAGS = {"all": ["rows", "cw_first_cell", "ccw_first_cell", "estimator", "solution", "cells_without_interface", "linearity", "physics_curved", "physics_straight", "disconnected_no_verdict", "live_sequence"]}
+REQUIRED_TAGS = {"all": ["rows", "cw_first_cell", "ccw_first_cell", "estimator", "solution", "cells_without_interface", "linearity", "physics_curved", "physics_straight", "disconnected_no_verdict", "live_sequence", "straight_among_curved", "straight_solution"]}
 
 
 def analytic_side(at, cm, k):
@@ -50,12 +50,19 @@ def analytic_side(at, cm, k):
     return out
 
 
-def pressure_rows(at, cm, k, lab, tensions=None):
+def straighten_post(which):
+    """interfaces `which` lose their interior points (two-point interfaces next to curved ones, as in any segmented image)"""
+    def post(jpos, ipts):
+        return jpos, [[pts[0], pts[-1]] if ii in which else pts for ii, pts in enumerate(ipts)]
+    return post if which else None
+
+
+def pressure_rows(at, cm, k, lab, tensions=None, straight=()):
     """build the frame, assign tensions to the internal interfaces (physical order), build the pressure matrix.
     returns dict with physical rows: {iidx: (centre cell, other cell, s*rhs, lib turning)} or error"""
     import forsys as fs
     with fsutil.quiet():
-        v, e, c, info = T.realise(at, k=k, cmap=cm, lab=lab)
+        v, e, c, info = T.realise(at, k=k, cmap=cm, lab=lab, post=straighten_post(set(straight)))
         fr = T.frame_of(v, e, c)
         s = fs.ForSys({0: fr})
     mb = T.match_big_edges(fr, info, at)
@@ -97,13 +104,16 @@ class Rows(ProductSystem):
         ax["order"] = [list(cids), cids[::-1]] + [cids[r:] + cids[:r] for r in range(1, n)]
         ax["shift"] = [{}] + [{c: 2} for c in cids[:4]]
         ax["k"] = [3, 1, 2, 8, 16]
+        internal = T.internal_interfaces(at)
+        inner = [c for c in cids if all(ii in internal for ii, _ in at["C"][c])]
+        ax["straight"] = [[], internal[:1], internal[::2]] + [sorted(ii for ii, _ in at["C"][c]) for c in inner[:2]]
         return ax
 
     def eval_config(self, base, cfg):
         at = self.abstract(base)
         cm = SC.make_cmap(base[2], 0.3, (0, 0), 1.0, SC.extent_of(bases.get(base[0])))
         lab = {"flips": cfg["orient"], "order": cfg["order"], "shifts": cfg["shift"]}
-        s, fr, info, inv, ex = pressure_rows(at, cm, cfg["k"], lab)
+        s, fr, info, inv, ex = pressure_rows(at, cm, cfg["k"], lab, straight=cfg["straight"])
         if ex is not None:
             return {"viol": [{"what": "build_pressure_matrix raised", "detail": fsutil.exc_str(ex)}], "tags": [], "cls": "exc", "obs": None}
         pm = s.pressure_matrices[0]
@@ -128,6 +138,10 @@ class Rows(ProductSystem):
                 continue
             with fsutil.quiet():
                 turn = float(be.calculate_total_curvature(normalized=False))
+            if ii in cfg["straight"]:
+                tags.append("straight_among_curved")
+                if turn != 0.0:
+                    viol.append({"what": "turning estimate of a two-point interface is not zero", "detail": {"interface": ii, "turning": turn}})
             if abs(abs(rhs) - abs(be.tension * turn)) > 1e-12 * max(1.0, abs(rhs)):
                 viol.append({"what": "right-hand side is not tension x total turning", "detail": {"interface": ii, "rhs": rhs, "tension": be.tension, "turning": turn}})
             first = fr.cells[be.own_cells[0]]
@@ -143,13 +157,20 @@ class Rows(ProductSystem):
                 phys[str(ii)] = [centre, other, s_ * rhs]
             else:
                 phys[str(ii)] = [None, None, abs(rhs)]
-        cls = "%s/%s/%d" % (base[0], fsutil.state_hash([cfg["orient"], cfg["order"], cfg["shift"]])[:6], cfg["k"])
+        cls = "%s/%s/%d" % (base[0], fsutil.state_hash([cfg["orient"], cfg["order"], cfg["shift"], cfg["straight"]])[:6], cfg["k"])
         return {"viol": viol[:6], "tags": sorted(set(tags)), "cls": cls, "obs": {"phys": phys, "k": cfg["k"]}, "nontrivial": any(v[0] is not None for v in phys.values())}
 
     def check_pair(self, base, axis, cfg1, r1, cfg2, r2):
         if axis == "k" or not r1.get("obs") or not r2.get("obs"):
             return [], []
         p1, p2 = r1["obs"]["phys"], r2["obs"]["phys"]
+        if axis == "straight":
+            if set(p1) != set(p2):
+                return [{"what": "[straight changed] dropping the interior points of some interfaces changes the set of pressure equations",
+                         "detail": {"only_before": sorted(set(p1) - set(p2))[:5], "only_after": sorted(set(p2) - set(p1))[:5]}}], []
+            changed = {str(i) for i in set(cfg1["straight"]) ^ set(cfg2["straight"])}
+            p1 = {k_: v for k_, v in p1.items() if k_ not in changed}
+            p2 = {k_: v for k_, v in p2.items() if k_ not in changed}
         if set(p1) != set(p2):
             return [{"what": "[%s changed] the set of pressure equations depends on the labelling" % axis}], []
         for k_ in p1:
@@ -345,6 +366,49 @@ class Solutions:
             if abs(sum(got.values())) > 1e-9 * scale:
                 viol.append({"what": "reported pressures do not sum to zero", "detail": sum(got.values())})
             sols.append({inv[c]: got[c] for c in keys})
+        # two-point interfaces among curved ones: the interfaces of one cell lose their interior points; every internal interface
+        # must still contribute its equation (right-hand side 0 for the straight ones) and the solution must be the zero-sum optimum
+        if sols and not viol and "disconnected_no_verdict" not in tags:
+            c0 = d["cells"][0]
+            straight = sorted(ii for ii, _ in sub["C"][c0] if ii in internal)
+            s, fr, info, inv, ex = pressure_rows(sub, cm, 3, {"order": order}, patterns[0], straight=straight)
+            if ex is None:
+                pm = s.pressure_matrices[0]
+                keys = list(fr.cells.keys())
+                removed = set(pm.removed_columns)
+                cols = [cid for n, cid in enumerate(keys) if n not in removed]
+                rows, seen_pairs = [], []
+                for pos, be in enumerate(pm.big_edges_to_use):
+                    row = np.array(pm.lhs_matrix[pos], float)
+                    plus = [cols[i] for i in range(len(row)) if row[i] == 1.0]
+                    minus = [cols[i] for i in range(len(row)) if row[i] == -1.0]
+                    if len(plus) != 1 or len(minus) != 1 or np.count_nonzero(row) != 2:
+                        viol.append({"what": "with two-point interfaces among curved ones a pressure equation is not a +1/-1 pair",
+                                     "detail": {"interface": getattr(be, "_ii", None), "straight": straight, "row": [float(x) for x in row]}})
+                        rows = None
+                        break
+                    rows.append((plus[0], minus[0], float(pm.rhs_matrix[pos])))
+                    seen_pairs.append(tuple(sorted((inv[plus[0]], inv[minus[0]]), key=int)))
+                if rows is not None:
+                    exp_pairs = sorted(tuple(sorted((sub["I"][ii]["L"], sub["I"][ii]["R"]), key=int)) for ii in internal)
+                    if sorted(seen_pairs) != exp_pairs:
+                        viol.append({"what": "with two-point interfaces among curved ones the pressure equations are not one per internal interface",
+                                     "detail": {"missing": [p_ for p_ in exp_pairs if p_ not in seen_pairs][:4], "straight": straight}})
+                    else:
+                        _, ex = fsutil.call(s.solve_pressure, when=0, method="lagrange_pressure")
+                        if ex is not None:
+                            viol.append({"what": "solve_pressure raised with two-point interfaces among curved ones", "detail": fsutil.exc_str(ex)})
+                        else:
+                            tags.append("straight_solution")
+                            got = {c: float(cc.pressure) for c, cc in fr.cells.items()}
+                            ref, occ = reference_pressures(rows, keys)
+                            scale = max(1.0, max(abs(x) for x in ref.values()))
+                            bad = [c for c in keys if abs(got[c] - ref[c]) > 1e-9 * scale]
+                            if bad:
+                                viol.append({"what": "with two-point interfaces among curved ones the reported pressures are not the zero-sum least-squares solution",
+                                             "detail": {"cells": [inv[c] for c in bad][:5], "got": [got[c] for c in bad][:5], "ref": [ref[c] for c in bad][:5], "straight": straight}})
+            else:
+                viol.append({"what": "build_pressure_matrix raised with two-point interfaces among curved ones", "detail": fsutil.exc_str(ex)})
         # the same assignments, one after the other, on ONE live ForSys object (a user who edits tensions and repeats the
         # pressure step): every result must equal that of the fresh object above
         if sols and not viol and "disconnected_no_verdict" not in tags:
